@@ -113,7 +113,9 @@ func (s *streamHTTP) SendMsg(m interface{}) error {
 
 	cur := reply.ProtoReflect()
 	for _, fd := range s.method.resp {
-		cur = cur.Mutable(localField(cur, fd)).Message()
+		// Read only: the reply belongs to the handler, which may share it
+		// between calls. An unset field reads as an empty message.
+		cur = cur.Get(localField(cur, fd)).Message()
 	}
 	msg := cur.Interface()
 
@@ -618,7 +620,9 @@ func AsHTTPBodyWriter(stream grpc.ServerStream, msg proto.Message) (body io.Writ
 		return nil, fmt.Errorf("expected %s got %s", want, name)
 	}
 	for _, fd := range s.method.resp {
-		cur = cur.Mutable(localField(cur, fd)).Message()
+		// Read only: the reply belongs to the handler, which may share it
+		// between calls. An unset field reads as an empty message.
+		cur = cur.Get(localField(cur, fd)).Message()
 	}
 
 	if typ := cur.Descriptor().FullName(); typ != "google.api.HttpBody" {
